@@ -43,6 +43,7 @@ func runC03(c *core.Check) {
 	}
 	info := pk.TypesInfo
 	c.Trust("golang.org/x/tools@v0.29.0 go/cfg", "gogen's CodeBuilder emits what its method names say (If/CompareNil/Then/ReturnErr/Return/Call)")
+	c.Analysed("lower_field_kinds", lowerFieldsFor(c, map[string]bool{"ErrWrapExpr": true}, map[string]string{}))
 	fd := prog.FuncDecl("./cl", "compileErrWrapExpr")
 	if fd == nil {
 		c.Bad("anchor", "cl.compileErrWrapExpr", 0, "not found")
